@@ -68,6 +68,12 @@ func c15GenRounds(c *c15Case) []c15Round {
 		} else {
 			var dirs []api.PolicyDirection
 			switch x := r.IntN(20); {
+			case c.apTarget >= 0:
+				// With an ADD-PATH-send neighbour only the export side changes. A soft reset in that
+				// re-imports a path with other attributes which the export policy rejects leaves the old
+				// version at an ADD-PATH peer: that is the known defect of the incremental ADD-PATH
+				// fan-out (C01: stale path after a filtered version), not the reset under test here.
+				dirs = []api.PolicyDirection{c15Export}
 			case x < 6:
 				dirs = []api.PolicyDirection{c15Import}
 			case x < 17:
@@ -298,6 +304,12 @@ func c15RunHistoryCase(t *testing.T, rec *vlib.Rec, idx int, c *c15Case, fam str
 			tgt = "all"
 		}
 		rec.Count(famPfx+"rounds", 1)
+		if c.apTarget >= 0 {
+			rec.Count("rounds_with_addpath_target", 1)
+			if rd.reset.Target == "all" || rd.reset.Target == c.peers[c.apTarget].Addr {
+				rec.Count("rounds_addpath_target_"+rd.reset.Kind, 1)
+			}
+		}
 		rec.Count(famPfx+"round_reset_"+rd.reset.Kind+"_"+tgt, 1)
 		if rd.inverse {
 			rec.Count("rounds_taking_previous_change_back", 1)
@@ -336,7 +348,10 @@ func c15RunHistoryCase(t *testing.T, rec *vlib.Rec, idx int, c *c15Case, fam str
 		// peers whose wire view is no reference (property C01 broken without any change): left out
 		tainted := map[string]bool{}
 		for rn, s := range map[string]*c15Snap{"A-before-change": a.a0, "B": b} {
-			for _, ps := range c.peers {
+			for i, ps := range c.peers {
+				if i == c.apTarget {
+					continue // no fresh ADJ_OUT view of an ADD-PATH neighbour (see snapshot)
+				}
 				if ds := c15Compare(&c15Snap{views: map[string]c15View{"x": s.views["wire@"+ps.Addr]}}, &c15Snap{views: map[string]c15View{"x": s.views["adj-out@"+ps.Addr]}}, nil, nil); len(ds) > 0 {
 					tainted["wire@"+ps.Addr] = true
 					rec.Count(famPfx+"precondition_wire_ne_adjout_run_"+rn, 1)
@@ -360,6 +375,15 @@ func c15RunHistoryCase(t *testing.T, rec *vlib.Rec, idx int, c *c15Case, fam str
 					continue
 				}
 				key := "c15:" + rd.reset.Kind + ":" + view + ":" + how + sfx
+				if view == "wire" && c.apTarget >= 0 {
+					only := true
+					for _, d := range hd {
+						only = only && d.View == "wire@"+c.peers[c.apTarget].Addr
+					}
+					if only {
+						key = "c15:" + rd.reset.Kind + ":wire-addpath:" + how + sfx
+					}
+				}
 				what := fmt.Sprintf("round %d of a history on one daemon: after the policy change and %s (target %s) the daemon differs from a fresh one with the same program from the start: ", k+1, rd.reset.Kind, rd.reset.Target)
 				if view == "adj-in" || view == "adj-out" {
 					dname := map[string]string{"adj-in": "import", "adj-out": "export"}[view]
